@@ -10,7 +10,8 @@
 //! Program classes: (i) "single": one lookup (every type / format, >= 2 subtables) x 27 lookup-flag
 //! settings; "ctxflags": every contextual template x 27 flag settings with a nested single substitution at
 //! every sequence index; (ii) "pair": ordered pairs of lookups in one / two features, both language-system
-//! orders, both caller orders, both index-array orders, 'rvrn'; (iii) "nest": contextual templates x nested
+//! orders, both caller orders, both index-array orders, 'rvrn'; "shared": one lookup index listed by two / three
+//! enabled features, twice by one feature, overlapping index sets, with lookups that are not idempotent; (iii) "nest": contextual templates x nested
 //! lookups of every type at every sequence index, two-record combinations, nesting depth up to and beyond
 //! the recursion limit; (iv) "variations": FeatureVariations x tuples at and around the range edges;
 //! "misc": modulo-65536 deltas, no GDEF, script selection.
@@ -48,6 +49,7 @@ const ALPHABET: [G; 5] = [A, B, L, M1, M2];
 const T_CALT: u32 = tag(b"calt");
 const T_LIGA: u32 = tag(b"liga");
 const T_RVRN: u32 = tag(b"rvrn");
+const T_CLIG: u32 = tag(b"clig");
 const T_LATN: u32 = tag(b"latn");
 const T_DFLT: u32 = tag(b"DFLT");
 
@@ -879,11 +881,117 @@ fn cat_misc() -> Vec<Prog> {
     v
 }
 
+
+/// lookups whose effect changes when they are applied a second time
+fn shared_bundles() -> Vec<Bundle> {
+    let z: Fl = (0, 0);
+    vec![
+        Bundle::simple("single1[a,b]+1".into(), lk(z, vec![Sub::Single1 { cov: vec![A, B], delta: 1 }])),
+        Bundle::simple("multiple[a]>[a,b]".into(), lk(z, vec![Sub::Multiple { cov: vec![A], seqs: vec![vec![A, B]] }])),
+        Bundle::simple("ligature{a a>a; b m1>b}".into(), lk(z, vec![lig(vec![A, B], vec![vec![(A, vec![A])], vec![(B, vec![M1])]])])),
+        Bundle::simple("single2[a,b,L]>[b,L,a]/IgnoreMarks".into(), lk((IGNORE_MARKS, 0), vec![Sub::Single2 { cov: vec![A, B, L], subst: vec![B, L, A] }])),
+        Bundle {
+            name: "ctx3{[ab][ab]}>single1[a,b]+1@0".into(),
+            lookups: vec![lk(z, vec![Sub::Context3 { covs: vec![vec![A, B], vec![A, B]], records: vec![(0, 1)] }]), lk(z, vec![Sub::Single1 { cov: vec![A, B], delta: 1 }])],
+            alt: None,
+        },
+    ]
+}
+
+/// main lookups first (bundle i at index i), their nested lookups after them
+fn assemble(bundles: &[&Bundle]) -> Vec<Lookup> {
+    let k = bundles.len() as u16;
+    let mut bases = Vec::new();
+    let mut base = k;
+    for b in bundles {
+        bases.push(base);
+        base += b.lookups.len() as u16 - 1;
+    }
+    let mut lookups: Vec<Lookup> = Vec::new();
+    for (i, b) in bundles.iter().enumerate() {
+        let bs = bases[i];
+        lookups.push(remap_lookup(&b.lookups[0], &|j| if j == 0 { i as u16 } else { bs + j - 1 }));
+    }
+    for (i, b) in bundles.iter().enumerate() {
+        let bs = bases[i];
+        for l in &b.lookups[1..] {
+            lookups.push(remap_lookup(l, &|j| if j == 0 { i as u16 } else { bs + j - 1 }));
+        }
+    }
+    lookups
+}
+
+/// one lookup index listed by several enabled features, listed twice by one feature, overlapping index sets:
+/// every lookup of the union is applied once, in LookupList order ('rvrn' is a stage of its own)
+fn cat_shared() -> Vec<Prog> {
+    let f = |tag: u32, l: &[u16]| Feature { tag, lookups: l.to_vec() };
+    // (name, number of main lookups, FeatureList (sorted by tag), caller lists, needs tuple)
+    let configs: Vec<(&str, usize, Vec<Feature>, Vec<Vec<u32>>, bool)> = vec![
+        ("clig[0] liga[0]", 1, vec![f(T_CLIG, &[0]), f(T_LIGA, &[0])], vec![vec![T_CLIG, T_LIGA], vec![T_LIGA, T_CLIG]], false),
+        (
+            "calt[0] clig[0] liga[0]",
+            1,
+            vec![f(T_CALT, &[0]), f(T_CLIG, &[0]), f(T_LIGA, &[0])],
+            vec![vec![T_CALT, T_CLIG, T_LIGA], vec![T_LIGA, T_CLIG, T_CALT], vec![T_CLIG, T_LIGA, T_CALT]],
+            false,
+        ),
+        ("liga[0,0]", 1, vec![f(T_LIGA, &[0, 0])], vec![vec![T_LIGA]], false),
+        ("clig[0,0] liga[0]", 1, vec![f(T_CLIG, &[0, 0]), f(T_LIGA, &[0])], vec![vec![T_CLIG, T_LIGA], vec![T_LIGA, T_CLIG]], false),
+        // 'rvrn' is processed as a stage of its own: a lookup it shares with another feature runs in both stages
+        ("liga[0] rvrn[0]", 1, vec![f(T_LIGA, &[0]), f(T_RVRN, &[0])], vec![vec![T_LIGA, T_RVRN], vec![T_RVRN, T_LIGA]], true),
+        ("clig[0] liga[0] rvrn[0,0]", 1, vec![f(T_CLIG, &[0]), f(T_LIGA, &[0]), f(T_RVRN, &[0, 0])], vec![vec![T_CLIG, T_LIGA, T_RVRN]], true),
+        ("clig[0,1] liga[0]", 2, vec![f(T_CLIG, &[0, 1]), f(T_LIGA, &[0])], vec![vec![T_CLIG, T_LIGA], vec![T_LIGA, T_CLIG]], false),
+        ("clig[0,1] liga[1,0]", 2, vec![f(T_CLIG, &[0, 1]), f(T_LIGA, &[1, 0])], vec![vec![T_CLIG, T_LIGA], vec![T_LIGA, T_CLIG]], false),
+        ("clig[1] liga[0,1,1]", 2, vec![f(T_CLIG, &[1]), f(T_LIGA, &[0, 1, 1])], vec![vec![T_CLIG, T_LIGA], vec![T_LIGA, T_CLIG]], false),
+        ("clig[0,1] liga[1,2]", 3, vec![f(T_CLIG, &[0, 1]), f(T_LIGA, &[1, 2])], vec![vec![T_CLIG, T_LIGA], vec![T_LIGA, T_CLIG]], false),
+        (
+            "calt[0,2] clig[1,2] liga[0,1,2]",
+            3,
+            vec![f(T_CALT, &[0, 2]), f(T_CLIG, &[1, 2]), f(T_LIGA, &[0, 1, 2])],
+            vec![vec![T_CALT, T_CLIG, T_LIGA], vec![T_LIGA, T_CALT, T_CLIG]],
+            false,
+        ),
+    ];
+    let bundles = shared_bundles();
+    let mut v = Vec::new();
+    for (cname, k, features, callers, needs_tuple) in &configs {
+        // every k-tuple of bundles
+        let n = bundles.len();
+        let total = n.pow(*k as u32);
+        for code in 0..total {
+            let mut c = code;
+            let mut chosen: Vec<&Bundle> = Vec::new();
+            for _ in 0..*k {
+                chosen.push(&bundles[c % n]);
+                c /= n;
+            }
+            let lookups = assemble(&chosen);
+            let lname = chosen.iter().map(|b| format!("[{}]", b.name)).collect::<Vec<_>>().join(" ");
+            for (ci, caller) in callers.iter().enumerate() {
+                v.push(Prog {
+                    name: format!("shared: {} {} caller#{}", lname, cname, ci),
+                    class: "shared",
+                    gsub: Gsub { script: T_DFLT, langsys: (0..features.len() as u16).collect(), features: features.clone(), lookups: lookups.clone(), variations: None },
+                    gdef: Some(Gdef::universe()),
+                    feats: caller.iter().map(|t| (*t, None)).collect(),
+                    tuples: if *needs_tuple { vec![Some(vec![0])] } else { vec![None] },
+                    maxlen: if *k == 1 { (4, 5) } else { (3, 4) },
+                    // the Mask seam does not depend on the caller's order: once per program
+                    seams: if ci == 0 { SEAM_CUSTOM | SEAM_MASK | if *k == 1 { SEAM_SHAPE } else { 0 } } else { SEAM_CUSTOM },
+                    encodings: 0,
+                });
+            }
+        }
+    }
+    v
+}
+
 fn catalogue(thorough: bool) -> Vec<Prog> {
     let mut v = cat_single(thorough);
     v.extend(cat_ctxflags(thorough));
     v.extend(cat_nest(thorough));
     v.extend(cat_pairs(thorough));
+    v.extend(cat_shared());
     v.extend(cat_variations());
     v.extend(cat_misc());
     v
@@ -1285,21 +1393,25 @@ fn variants(touched: u32) -> Vec<(Variant, &'static str)> {
     let seqs: &[SeqMode] = if touched & (T_LEN_CHANGE_IN_CONTEXT | T_CONTEXT_MATCHED) != 0 { &[SeqMode::Hb, SeqMode::Spec] } else { &[SeqMode::Hb] };
     let empties: &[bool] = if touched & T_EMPTY_SEQ != 0 { &[true, false] } else { &[true] };
     let nones: &[bool] = if touched & T_NONE_TUPLE_WITH_VARIATIONS != 0 { &[false, true] } else { &[false] };
+    let resumes: &[bool] = if touched & T_END_CLAMPED != 0 { &[false, true] } else { &[false] };
     let mut v = Vec::new();
     for &seq in seqs {
         for &empty_seq_deletes in empties {
             for &none_is_default_instance in nones {
-                let var = Variant { seq, empty_seq_deletes, none_is_default_instance };
-                if var == Variant::default() {
-                    continue;
+                for &resume_after_applied in resumes {
+                    let var = Variant { seq, empty_seq_deletes, none_is_default_instance, resume_after_applied };
+                    if var == Variant::default() {
+                        continue;
+                    }
+                    let name = match (seq, empty_seq_deletes, none_is_default_instance, resume_after_applied) {
+                        (SeqMode::Spec, true, false, false) => "sequence-index-literal-reading",
+                        (SeqMode::Hb, false, false, false) => "empty-sequence-leaves-glyph",
+                        (SeqMode::Hb, true, true, false) => "no-tuple-is-default-instance",
+                        (SeqMode::Hb, true, false, true) => "resume-after-nested-lookup-position",
+                        _ => "combination-of-alternatives",
+                    };
+                    v.push((var, name));
                 }
-                let name = match (seq, empty_seq_deletes, none_is_default_instance) {
-                    (SeqMode::Spec, true, false) => "sequence-index-literal-reading",
-                    (SeqMode::Hb, false, false) => "empty-sequence-leaves-glyph",
-                    (SeqMode::Hb, true, true) => "no-tuple-is-default-instance",
-                    _ => "combination-of-alternatives",
-                };
-                v.push((var, name));
             }
         }
     }
@@ -1574,7 +1686,7 @@ pub fn run(ctx: &Ctx) {
     ctx.assume("requiredFeatureIndex = 0xFFFF in all generated LangSys tables; one script record (DFLT unless stated); feature tags calt, liga, rvrn ('fina', 'vert', 'vrt2', 'frac', which gsub_apply_custom / the Mask path treat specially, are excluded)");
     ctx.assume("'rvrn' lookups are applied before the lookups of all other features (feature registry: 'should be processed early'; HarfBuzz applies it as a separate first stage), otherwise enabled lookups run in LookupList order whatever the order of features in the FeatureList, the LangSys or the caller's list and whatever the order of indices in a feature table");
     ctx.assume("backtrack sequences / coverages are stored closest glyph first (all implementations); a nested lookup is applied once at its sequence position without testing that glyph against the nested lookup's flags (HarfBuzz), its flags govern the following glyphs; ReverseChainSingleSubst and alternates other than the first are not nested");
-    ctx.assume("after a nested lookup changed the length of the run (or turned a matched glyph into one the parent lookup skips) both the literal reading (sequenceIndex counts the non-skipped glyphs of the current matched input) and HarfBuzz's match-position bookkeeping are accepted; the walk resumes after the matched input corrected by the net length change, never before the position the nested lookup was applied to (HarfBuzz)");
+    ctx.assume("after a nested lookup changed the length of the run (or turned a matched glyph into one the parent lookup skips) both the literal reading (sequenceIndex counts the non-skipped glyphs of the current matched input) and HarfBuzz's match-position bookkeeping are accepted; the walk resumes after the matched input corrected by the net length change; when a nested lookup consumed glyphs beyond the matched input both resuming at the glyph it was applied to (HarfBuzz) and after that glyph (literal: it belongs to the matched input) are accepted");
     ctx.assume("an empty Sequence table (forbidden by the specification) may delete the glyph (HarfBuzz, allsorts) or leave it unchanged");
     ctx.assume("FeatureInfo.alternate = Some(k) selects alternate k (0-based), None the first; an index beyond the set leaves the glyph unchanged");
     ctx.assume("no variation tuple: FeatureVariations are either not evaluated or evaluated at the default instance (all coordinates 0); Features::Mask with 'rvrn' and no tuple is not enumerated (allsorts applies 'rvrn' there only when a tuple is supplied); condition axis indices stay within the supplied tuple");
@@ -1606,7 +1718,7 @@ pub fn run(ctx: &Ctx) {
             "lookup_flag_settings": flags27().iter().map(|f| f.0.clone()).collect::<Vec<_>>(),
             "max_string_length": {"single": if thorough { 5 } else { 4 }, "ctxflags": if thorough { 5 } else { 4 },
                 "nest (one nested lookup / depth)": if thorough { 5 } else { 4 }, "nest (two records)": if thorough { 4 } else { 3 },
-                "pair": if thorough { 4 } else { 3 }, "variations": if thorough { 3 } else { 2 }, "misc": if thorough { 4 } else { 3 }},
+                "pair": if thorough { 4 } else { 3 }, "shared (one lookup)": if thorough { 5 } else { 4 }, "shared (two / three lookups)": if thorough { 4 } else { 3 }, "variations": if thorough { 3 } else { 2 }, "misc": if thorough { 4 } else { 3 }},
             "encodings": if thorough { "single/ctxflags(all indices)/misc(wrap): 7 (<= 2 non-default of Coverage 2, ClassDef 1, Extension); nest(one record)/variations: default + Extension; others: default" } else { "single/ctxflags(all indices) with one of the 8 single flag settings, misc(wrap): 7 (<= 2 non-default of Coverage 2, ClassDef 1, Extension); nest(one record, flag 0)/variations: default + Extension; others: default" },
             "nesting_depth": 5, "pair_bundles": pair_bundles(thorough).len(), "pair_configurations": pair_configs().len(),
             "seams": ["gsub::apply Custom", "gsub::apply Mask", "Font::shape"],
